@@ -194,11 +194,51 @@ CycleOptional == C("cycleoptional", <<R("r1", SC, 0, "a", "ctorerr", TRUE, <<PO(
                                       R("r2", SC, 1, "a", "ctorerr", FALSE, <<P("S0")>>)>>)
 MissingKeyed == C("missingkeyed", <<R("r1", SG, 1, "a", "ctorerr", FALSE, <<>>),
                                     R("r2", SC, 0, "a", "ctorerr", TRUE, <<P("S1"), PK("S1")>>)>>)
-CfgMore == {Alias2Transient, OptionalSing, GroupTransDeps, GroupMixedOK, AliasGroupAsym}
+\* outputs removed from the collection again before Build (collection edits feed the container model)
+Rmd(r, outs) == r @@ [rm |-> outs]
+\* scoped (S0,S1) whose second output was removed and re-registered by another scoped constructor; consumer of both
+MultiRmReadd == C("multirmreadd", <<Rmd(Two(R("r1", SC, 0, "a", "multierr", FALSE, <<>>), 1), <<2>>),
+                                    R("r2", SC, 1, "a", "ctorerr", FALSE, <<>>),
+                                    R("r3", SC, 2, "a", "ctorerr", FALSE, <<P("S0"), P("S1")>>)>>)
+\* the FIRST output removed: the remaining sibling still stands for the constructor (singleton, transient consumer)
+MultiRmFirst == C("multirmfirst", <<Rmd(Two(R("r1", SG, 0, "a", "multi", FALSE, <<>>), 1), <<1>>),
+                                    R("r2", TR, 2, "a", "ctorerr", FALSE, <<P("S1")>>)>>)
+OutKNRmFirst == C("outknrmfirst", <<Rmd(Two(R("r1", SC, 0, "a", "outkn", FALSE, <<>>), 1), <<1>>),
+                                    R("r2", TR, 0, "b", "ctorerr", FALSE, <<>>),
+                                    R("r3", SC, 2, "a", "ctorerr", TRUE, <<P("S0"), PK("S1")>>)>>)
+\* every output removed: the registration is dead, its missing dependency does not count
+MultiRmAll == C("multirmall", <<Rmd(Two(R("r1", SG, 0, "a", "multi", FALSE, <<P("S3")>>), 1), <<1, 2>>),
+                                R("r2", SC, 2, "a", "ctorerr", FALSE, <<>>)>>)
+\* defects that must still be found through the remaining sibling after the first output was removed
+RmFirstCaptive == C("rmfirstcaptive", <<R("r0", SC, 2, "a", "ctorerr", FALSE, <<>>),
+                                        Rmd(Two(R("r1", SG, 0, "a", "multi", FALSE, <<P("S2")>>), 1), <<1>>)>>)
+RmFirstCaptiveOut == C("rmfirstcaptiveout", <<R("r0", SC, 2, "a", "ctorerr", FALSE, <<>>),
+                                              Rmd(Two(R("r1", TR, 0, "a", "outkn", FALSE, <<P("S2")>>), 1), <<1>>)>>)
+RmFirstMissing == C("rmfirstmissing", <<Rmd(Two(R("r1", SC, 0, "a", "multierr", FALSE, <<P("S3")>>), 1), <<1>>)>>)
+RmFirstMissingOut == C("rmfirstmissingout", <<Rmd(Two(R("r1", TR, 0, "a", "outkn", FALSE, <<P("S3")>>), 1), <<1>>)>>)
+RmFirstCycle == C("rmfirstcycle", <<Rmd(Two(R("r1", SC, 0, "a", "multierr", FALSE, <<P("S2")>>), 1), <<1>>),
+                                    R("r2", SC, 2, "a", "ctorerr", FALSE, <<P("S1")>>)>>)
+CfgRemoved == {MultiRmReadd, MultiRmFirst, OutKNRmFirst, MultiRmAll}
+CfgRemovedDefective == {RmFirstCaptive, RmFirstCaptiveOut, RmFirstMissing, RmFirstMissingOut, RmFirstCycle}
+
+\* the same transient requested by two FIELDS of one parameter object (plain, named, group), by a scoped consumer,
+\* by a singleton at Build and by another transient
+DiamondPO == C("diamondpo", <<R("r1", TR, 2, "a", "ctorerr", FALSE, <<>>),
+                              R("r2", SC, 1, "a", "ctorerr", TRUE, <<P("S2"), P("S2")>>),
+                              R("r3", SG, 0, "a", "ctorerr", TRUE, <<P("S2"), P("S2")>>),
+                              R("r4", TR, 3, "a", "ctorerr", TRUE, <<P("S2"), P("S2")>>)>>)
+DiamondPOKG == C("diamondpokg", <<Named(R("r1", TR, 2, "a", "ctorerr", FALSE, <<>>)),
+                                  Grouped(R("r2", TR, 3, "a", "ctorerr", FALSE, <<>>)),
+                                  Grouped(R("r3", TR, 3, "b", "ctorerr", FALSE, <<>>)),
+                                  R("r4", SC, 1, "a", "ctorerr", TRUE, <<PK("S2"), PK("S2")>>),
+                                  R("r5", SC, 0, "a", "ctorerr", TRUE, <<PG("S3"), PG("S3")>>)>>)
+
+CfgMore == {DiamondPO, DiamondPOKG, Alias2Transient, OptionalSing, GroupTransDeps, GroupMixedOK, AliasGroupAsym}
 
 Plain == {Basic, Chain, Keyed, Group, GroupScoped, GroupDeps, Multi, MultiTr, OutKN, OutKNSing, Alias1, Alias2,
-          Alias2Scoped, Diamond2, Optional, Inits, InitSing, Builtin, InstVal} \cup CfgForms \cup CfgMore
+          Alias2Scoped, Diamond2, Optional, Inits, InitSing, Builtin, InstVal} \cup CfgForms \cup CfgMore \cup CfgRemoved
 Defective == {Cycle2, CycleGroup, Captive, CaptiveGroup, MissingDep, GroupMixedCaptive, GroupMixedCaptive2, CycleOptional, MissingKeyed}
+             \cup CfgRemovedDefective
 
 Hows == {"err", "panic"}
 \* a scripted error needs a constructor shape that can return one
